@@ -6,6 +6,7 @@ package main
 //    or: "assign ; p low high err ; ..."
 
 import (
+	"errors"
 	"encoding/hex"
 	"encoding/json"
 	"fmt"
@@ -198,6 +199,10 @@ func execReceiver(input string) string {
 	recvClient := newScriptedConsumer()
 	recv := message.VerifNewKafkaMessageReceiver(recvClient, topic, np, func(m message.Message) []error {
 		delivered = append(delivered, fmtMsg(m))
+		if len(m.Payload)%3 == 1 {
+			// some subscriber fails on this message: it has still been delivered, once
+			return []error{errors.New("scripted subscriber failure")}
+		}
 		return nil
 	})
 	var outs []string
